@@ -249,6 +249,7 @@ def check(pid, tier):
 
     nops = 0
     n_skipped = 0
+    n_model_timeout = 0
     hist = {}
     distinct = set()
     samples = []
@@ -265,6 +266,13 @@ def check(pid, tier):
                 continue
             nops += 1
             ma, spec = props.split_model(model_ans[ci][oi])
+            if ma == "timeout" and props.klass(ia) not in ("panic", "crash", "timeout", "ub", "none"):
+                # the executable model did not finish this operation within its time limit (a search the compiled
+                # Lean code runs orders of magnitude slower than the Rust code): nothing to compare, which says
+                # nothing about the implementation — counted, not judged (an abnormal end of the implementation
+                # is still judged below)
+                n_model_timeout += 1
+                continue
             fam = op.split(" ", 1)[0]
             k = fam + ":" + props.klass(ia)
             hist[k] = hist.get(k, 0) + 1
@@ -288,6 +296,7 @@ def check(pid, tier):
     }
     cov["evaluations"] = nops
     cov["operations_skipped_after_crash_budget"] = n_skipped
+    cov["operations_unjudged_model_timeout"] = n_model_timeout
     cov["distinct_nontrivial"] = len(distinct)
     cov["samples"] = samples
     cov["known_findings_printed"] = known_printed
